@@ -11,7 +11,9 @@ RULE = ("families of 3-5 real runs that differ only in observation: outstep in {
         "tracking file absent / 1-20 particles with FPTrack 0..3, verbose, output file name, plus one exact repetition; base "
         "configuration generated (grid, steps, bunches, impedance, shifts, renormalisation, interpolation).  Oracle: final "
         "phase space and every record with a common time value bit-identical across the family.  non-trivial = two members "
-        "with different output step sets, laststep >= 10 and a wake or renormalisation active; distinct = case hash")
+        "with different output step sets, laststep >= 10 and a wake, renormalisation or RF phase modulation active; distinct = case "
+        "hash.  One configuration in ten adds a deterministic RF phase modulation to a short run, three in ten are long runs "
+        "(1030..2600 steps, two thirds of them with phase modulation) with sparse cadences {100,150,333,1000,1024,1025,never}")
 ASSUMPTIONS = ["all members of a family use one FFTW wisdom directory that was warmed by a discarded run"]
 TOLERANCES = {"all comparisons": "bitwise"}
 PER_RECORD = ["/BunchProfile/data", "/EnergyProfile/data", "/BunchLength/data", "/BunchPosition/data", "/EnergySpread/data",
@@ -62,8 +64,9 @@ def run_case(case):
     steps = d["steps"]
     sets = [tuple(steps_of(h, steps)) for h in results]
     wake_or_renorm = ("/WakePotential/data" in results[0].ds and results[0]["/WakePotential/data"].size > 0) or base.get("RenormalizeCharge", 0) > 0
-    nontriv = bool(len(set(sets)) > 1 and d["laststep"] >= 10 and wake_or_renorm)
-    cls = ["nb%d" % d["nb"], "wake" if "/WakePotential/data" in results[0].ds and results[0]["/WakePotential/data"].size else "nowake",
+    nontriv = bool(len(set(sets)) > 1 and d["laststep"] >= 10 and (wake_or_renorm or base.get("RFPhaseModAmplitude", 0) > 0))
+    cls = ["long" if d["laststep"] > 1024 else "short", "rfmod" if base.get("RFPhaseModAmplitude", 0) > 0 else "staticrf",
+           "nb%d" % d["nb"], "wake" if "/WakePotential/data" in results[0].ds and results[0]["/WakePotential/data"].size else "nowake",
            "renorm" if base.get("RenormalizeCharge", 0) > 0 else "norenorm"]
     ref = results[0]
     for i in range(1, len(results)):
@@ -118,13 +121,30 @@ def run_case(case):
 @st.composite
 def cases(draw):
     base = draw(cfggen.base_config(nmin=16, nmax=48, min_laststep=10, max_laststep=40, big=24, via_rev=6))
+    # deterministic RF includes a configured phase modulation (no noise); long runs (> 1024 steps) with sparse output reach
+    # whatever is buffered, chunked or flushed per output block (round-3 seed C12c: modulation table refilled per 1024 steps)
+    mode = draw(st.sampled_from(["plain"] * 6 + ["rfmod_short", "rfmod_long", "rfmod_long", "long"]))
+    long_out = []
+    if mode != "plain":
+        if mode.startswith("rfmod"):
+            base["RFPhaseModAmplitude"] = draw(st.sampled_from([0.5, 2.0, 10.0]))
+            base["RFPhaseModFrequency"] = draw(st.sampled_from([3e3, 1.7e4, 4.1e4]))
+        if mode in ("rfmod_long", "long"):
+            base.pop("StepsPerRevolution", None)
+            if base["GridSize"] > 48:
+                base["GridSize"] = 32
+            steps = draw(st.integers(40, 200))
+            base["StepsPerTs"] = steps
+            Lw = draw(st.integers(1030, 2600))
+            base["rotations"] = float(np.float32((Lw - 0.5) / steps))
+            long_out = [100, 150, 333, 1000, 1024, 1025]
     d = cfggen.derive(base)
     L = d["laststep"]
 
     def variant(i):
         ntr = draw(st.sampled_from([0, 0, 1, 5, 20]))
         track = [[draw(st.floats(-5, 5)), draw(st.floats(-5, 5))] for _ in range(ntr)]
-        return dict(outstep=draw(st.sampled_from([0, 1, 2, 5, 17, max(L, 1)])), save=draw(st.sampled_from([0, 1, 2])),
+        return dict(outstep=draw(st.sampled_from([0, 1, 2, 5, 17, max(L, 1)] + long_out + ([0] if long_out else []))), save=draw(st.sampled_from([0, 1, 2])),
                     track=track, fptrack=draw(st.sampled_from([0, 1, 2, 3])), verbose=draw(st.booleans()),
                     name=draw(st.sampled_from(["out", "res", "sub_x"])) + str(i))
     fam = [variant(i) for i in range(draw(st.integers(2, 4)))]
